@@ -1439,3 +1439,71 @@ VARIANTS += [
  _acc('accessor-flag-if-return-inverted', 'flagged(result/success-exit)', _ACC_FLAG_USE, '\tif !attempts.verified() {\n',
       'func (a *signatureAttempts) verified() bool {\n\tif a.outcomes != nil {\n\t\treturn false\n\t}\n\treturn true\n}\n', *_NOFLAG),
 ]
+
+# ---- fifth pass ----------------------------------------------------------------------------------------------
+# class "closure vs method vs state struct", member: the state object is a struct-VALUED local of the outer function
+# (`attempts := signatureAttempts{…}`, methods called on it take its address implicitly) and the outer function itself
+# calls a read-only accessor on it (the limit error built on demand by a method instead of kept in a local / field).
+# Held-out refactoring: page cut to limit - processed, index loop, per-signature method returning the done sentinel.
+
+_VO_LIMIT_LIT = '\t\terrLimitExceeded:   ErrorVerificationFailed{Msg: fmt.Sprintf("signature evaluation stopped. The configured limit of %d signatures to verify per artifact exceeded", verifyOpts.MaxSignatureAttempts)},\n'
+_VO_LIMIT_FN = '// limitError is what the lister gets once maxAttempts signatures have been processed.\nfunc (a *signatureAttempts) limitError() error {\n\treturn ErrorVerificationFailed{Msg: fmt.Sprintf("signature evaluation stopped. The configured limit of %d signatures to verify per artifact exceeded", a.maxAttempts)}\n}\n'
+_VO_EDITS = [
+    ('\tattempts := &signatureAttempts{\n', '\tattempts := signatureAttempts{\n'),
+    (_VO_LIMIT_LIT, ''),
+    ('\t\tif errors.Is(err, attempts.errLimitExceeded) {\n', '\t\tif errors.Is(err, errTooMany) {\n'),
+    ('\t// get signature manifests\n\tlogger.Debug("Fetching signature manifests")\n\terr = repo.ListSignatures(ctx, artifactDescriptor, func(signatureManifests []ocispec.Descriptor) error {\n\t\treturn attempts.processPage(',
+     '\terrTooMany := attempts.limitError()\n\n\t// get signature manifests\n\tlogger.Debug("Fetching signature manifests")\n\terr = repo.ListSignatures(ctx, artifactDescriptor, func(signatureManifests []ocispec.Descriptor) error {\n\t\treturn attempts.processPage('),
+    ('\t\treturn a.errLimitExceeded\n', '\t\treturn a.limitError()\n'),
+]
+
+def _vo(name, expect, *more, **kw):
+    fn = kw.pop('fn', _VO_LIMIT_FN)
+    return _wm(name, expect, *(_VO_EDITS + [(_ACC_ANCHOR, fn + '\n' + _ACC_ANCHOR)] + list(more)), **kw)
+
+# the held-out loop: page cut, index loop, worker returns the sentinel
+_VO_CUT = (_WM_LOOP, '''	if remaining := a.maxAttempts - a.processed; len(signatureManifests) > remaining {
+		signatureManifests = signatureManifests[:remaining]
+	}
+	for i := range signatureManifests {
+		sigManifestDesc := signatureManifests[i]
+		a.processed++
+''')
+_VO_FLAG_FN = 'func (a *signatureAttempts) verified() bool {\n\treturn a.succeeded\n}\n'
+
+VARIANTS += [
+ _vo('shape-value-object-accessor-in-outer', 'silent',
+     why='state struct held by value; the outer function calls the read-only method limitError() on it (address taken implicitly)'),
+ _vo('shape-value-object-accessor-in-outer-cut-index', 'silent', _VO_CUT,
+     why='the held-out refactoring: the same plus the page cut to limit - processed and an index loop'),
+ _vo('shape-value-object-accessor-function', 'silent',
+     ('errTooMany := attempts.limitError()', 'errTooMany := limitErrorOf(&attempts)'), ('\t\treturn a.limitError()\n', '\t\treturn limitErrorOf(a)\n'),
+     fn='func limitErrorOf(a *signatureAttempts) error {\n\treturn ErrorVerificationFailed{Msg: fmt.Sprintf("signature evaluation stopped. The configured limit of %d signatures to verify per artifact exceeded", a.maxAttempts)}\n}\n',
+     why='the accessor is a plain function that is handed &attempts'),
+ _vo('shape-value-object-accessor-decides', 'silent', (_ACC_FLAG_USE, '\tif !attempts.verified() {\n'), (_ACC_ANCHOR, _VO_FLAG_FN + '\n' + _ACC_ANCHOR),
+     why='value-held state struct; the success test of the outer function goes through a read-only accessor called on the object itself'),
+ _vo('shape-value-object-accessor-recomputed', 'silent',
+     ('\t\tif errors.Is(err, errTooMany) {\n', '\t\tif errors.Is(err, attempts.limitError()) {\n'), ('\terrTooMany := attempts.limitError()\n\n', ''),
+     why='no local at all: the limit error is rebuilt by the accessor where it is compared'),
+ # broken in the new shape
+ _vo('value-object-outer-method-writes', 'flagged(callback/state-object)',
+     fn=_VO_LIMIT_FN.replace('\treturn ErrorVerificationFailed{', '\ta.succeeded = a.processed > 0\n\treturn ErrorVerificationFailed{'),
+     why='the method the outer function calls on the value-held object stores to the success flag: no read-only accessor'),
+ _vo('value-object-outer-leaks-address', 'flagged(callback/state-object)',
+     ('\terrTooMany := attempts.limitError()\n', '\terrTooMany := attempts.limitError()\n\trememberAttempts(&attempts)\n'),
+     (_ACC_ANCHOR, 'var lastAttempts *signatureAttempts\n\nfunc rememberAttempts(a *signatureAttempts) { lastAttempts = a }\n\n' + _ACC_ANCHOR),
+     why='the outer function hands the address of the value-held object to a function that keeps it'),
+ _vo('value-object-outer-hands-out-field-address', 'flagged(callback/state-object)',
+     fn=_VO_LIMIT_FN.replace('\treturn ErrorVerificationFailed{', '\tbumpAttempts(&a.processed)\n\treturn ErrorVerificationFailed{') + '\nfunc bumpAttempts(n *int) { *n = 0 }\n'),
+ _vo('value-object-accessor-decides-widened', 'flagged(result/success-exit)', (_ACC_FLAG_USE, '\tif !attempts.verified() {\n'),
+     (_ACC_ANCHOR, 'func (a *signatureAttempts) verified() bool {\n\treturn a.succeeded || len(a.failures) > 1\n}\n\n' + _ACC_ANCHOR)),
+ _vo('value-object-cut-one-more', 'flagged(bound/guard)',
+     (_VO_CUT[0], _VO_CUT[1].replace('len(signatureManifests) > remaining {\n\t\tsignatureManifests = signatureManifests[:remaining]', 'len(signatureManifests) > remaining+1 {\n\t\tsignatureManifests = signatureManifests[:remaining+1]'))),
+ _vo('value-object-cut-limit-field-raised', 'flagged(bound/guard)', _VO_CUT,
+     ('\t\tmaxAttempts:        verifyOpts.MaxSignatureAttempts,\n', '\t\tmaxAttempts:        verifyOpts.MaxSignatureAttempts + 1,\n')),
+ _vo('value-object-success-not-reported', 'flagged(early-exit/stop-after-success)', _VO_CUT,
+     ('\t\tif verified {\n\t\t\t// early break on success\n\t\t\treturn errDoneVerification\n\t\t}\n', '\t\tif verified {\n\t\t\tcontinue\n\t\t}\n')),
+ _vo('value-object-copied-for-callback', 'flagged(',
+     ('\t\treturn attempts.processPage(', '\t\tsnapshot := attempts\n\t\treturn snapshot.processPage('),
+     why='the callback works on a copy of the value-held object: the counter of the outer function never moves'),
+]
